@@ -130,9 +130,20 @@ def apply_variant(ep, s, o, variant, rng):
         dn = names[0]
         unit = _unit() if rng.random() < 0.3 and ep.quantity else None
         unc = None
+        ukind = 'none'
         if o.get('use_error') and 'error' in ep.arrays:
-            unc = StdDevUncertainty(s['error'].copy(), unit=unit) if unit is not None and rng.random() < 0.5 \
-                else StdDevUncertainty(s['error'].copy())
+            # the same (non-uniform) errors in any of the astropy uncertainty representations; entry points that
+            # document "StdDevUncertainty only" (aperture_photometry, ApertureStats) get only that one
+            from astropy.nddata import InverseVariance, VarianceUncertainty
+            ukind = 'std' if ep.nddata == 'stddev' else ['std', 'var', 'ivar'][int(rng.integers(0, 3))]
+            e = s['error'].astype(float)
+            with_u = unit is not None and rng.random() < 0.5
+            if ukind == 'std':
+                unc = StdDevUncertainty(e.copy(), unit=unit if with_u else None)
+            elif ukind == 'var':
+                unc = VarianceUncertainty(e ** 2, unit=unit ** 2 if with_u else None)
+            else:
+                unc = InverseVariance(1.0 / e ** 2, unit=1 / unit ** 2 if with_u else None)
         mask = s['mask'].copy() if o.get('use_mask') else None
         if ep.nddata == 'data':
             # this entry point documents NDData only as a carrier of the data (and unit); mask stays a keyword
@@ -143,7 +154,7 @@ def apply_variant(ep, s, o, variant, rng):
             o2['use_mask'] = False
         if unit is not None:
             _unit_options(ep, s2, o2, unit)
-        return s2, o2, 'nddata' + ('+unit' if unit is not None else '')
+        return s2, o2, f'nddata:{ukind}' + ('+unit' if unit is not None else '')
     if variant == 'quantity':
         unit = _unit()
         for n in names:
@@ -315,6 +326,9 @@ def compare_repr(case, ep, variant, tag, res1, res2, o, amp, precision, gap_ok, 
         mech = dict(mech0, output=name)
         if ep.mech_fn is not None:
             mech.update(ep.mech_fn(o, name, out1))
+        if variant in ('int16', 'uint16') and 'err' in name:
+            # structural: an error-type output computed from an error array of a 16-bit integer dtype
+            mech['error_output_16bit'] = True
         r1, r2 = out1[name], out2[name]
         if isinstance(r1, epm.Raised) or isinstance(r2, epm.Raised):
             b1, b2 = isinstance(r1, epm.Raised), isinstance(r2, epm.Raised)
@@ -388,7 +402,7 @@ def run_case(case):
     variant = case.cls
     precision = variant in PRECISION
     r = rng.random()
-    flav = 'stars' if r < 0.25 else ('pedestal' if r < 0.45 and variant not in ('nddata', 'mixed_units') else 'general')
+    flav = 'stars' if r < (0.5 if variant == 'nddata' else 0.25) else ('pedestal' if r < 0.45 and variant not in ('nddata', 'mixed_units') else 'general')
     scene = gen.make_scene(rng, flavour='general' if flav == 'pedestal' else flav, margin=8, integer=precision,
                            nonneg=(variant == 'uint16'))
     amp = scene['amp']
@@ -476,6 +490,8 @@ def run_case(case):
                     gap_ok = False
             case.note(f'gap_check:{ep.name}:{"ok" if gap_ok else "no_gap"}')
         case.note(f'runs:{ep.name}:{variant}')
+        if variant == 'nddata':
+            case.note(f'nddata_form:{ep.name}:{tag}')
         unit = _unit() if (variant == 'quantity' or tag.endswith('+unit')) else None
         n = compare_repr(case, ep, variant, tag, r1, r2, o1, amp, precision, gap_ok, unit=unit)
         nonempty = r1[0].get('n', r1[0].get('nlabels', 1)) != 0
